@@ -404,4 +404,304 @@ theorem kahnLoop_spec {R : Prop} (g : Graph) (all : List Nat) (hall : all.Nodup)
       rw [kahnLoop.eq_3, kahnStep_degOf g all sorted c hcs]
       exact ih _ _ (kinv_step hall h) (by simp only [List.length_cons]; omega)
 
+/-! ### `topo` -/
+
+/-- the module universe of `topo` -/
+def topoAll (g : Graph) (mods : List Nat) : List Nat := (mods ++ g.map (·.1)).eraseDups
+
+def topoQueue (g : Graph) (mods : List Nat) : List Nat :=
+  sortNat ((mods.eraseDups).filter fun m => (succs g m).length == 0)
+
+theorem topo_eq (g : Graph) (mods : List Nat) :
+    topo g mods = kahnLoop g ((topoAll g mods).length + 1) (topoQueue g mods)
+      (degOf g (topoAll g mods) []) [] := by
+  unfold topo topoAll topoQueue degOf
+  simp only [unem_nil]
+
+theorem mem_topoAll {g : Graph} {mods : List Nat} {x : Nat} :
+    x ∈ topoAll g mods ↔ x ∈ mods ∨ ∃ ds, (x, ds) ∈ g := by
+  unfold topoAll
+  rw [List.mem_eraseDups, List.mem_append, List.mem_map]
+  constructor
+  · rintro (h | ⟨⟨a, ds⟩, h1, h2⟩)
+    · exact Or.inl h
+    · simp at h2; subst h2; exact Or.inr ⟨ds, h1⟩
+  · rintro (h | ⟨ds, h⟩)
+    · exact Or.inl h
+    · exact Or.inr ⟨(x, ds), h, rfl⟩
+
+theorem mem_topoQueue {g : Graph} {mods : List Nat} {x : Nat} :
+    x ∈ topoQueue g mods ↔ x ∈ mods ∧ (succs g x).length = 0 := by
+  unfold topoQueue
+  rw [mem_sortNat, List.mem_filter, List.mem_eraseDups]
+  simp
+
+theorem kinv_init (g : Graph) (mods : List Nat) :
+    KInv (∀ x ds, (x, ds) ∈ g → x ∈ mods) g (topoAll g mods) (topoQueue g mods) [] := by
+  refine ⟨?_, ?_, ?_, trivial, ?_⟩
+  · rw [List.append_nil]
+    exact nodup_sortNat (nodup_filter _ (nodup_eraseDups _))
+  · intro m hm
+    rw [mem_topoQueue] at hm
+    exact ⟨mem_topoAll.2 (Or.inl hm.1), by rw [unem_nil]; exact hm.2⟩
+  · intro m hm; simp at hm
+  · intro hR m hm hu
+    rw [unem_nil] at hu
+    refine Or.inl (mem_topoQueue.2 ⟨?_, hu⟩)
+    rcases mem_topoAll.1 hm with h | ⟨ds, h⟩
+    · exact h
+    · exact hR m ds h
+
+/-- `topo` returns the reverse of a list satisfying the loop invariant with an empty queue -/
+theorem topo_spec (g : Graph) (mods : List Nat) :
+    ∃ final, topo g mods = final.reverse ∧
+      KInv (∀ x ds, (x, ds) ∈ g → x ∈ mods) g (topoAll g mods) [] final := by
+  rw [topo_eq]
+  exact kahnLoop_spec g (topoAll g mods) (nodup_eraseDups _) _ _ _ (kinv_init g mods) (by simp)
+
+/-- P2 (a): no module is emitted twice (no hypothesis needed) -/
+theorem topo_nodup (g : Graph) (mods : List Nat) : (topo g mods).Nodup := by
+  obtain ⟨final, h1, h2⟩ := topo_spec g mods
+  rw [h1]
+  have := h2.nodup
+  rw [List.nil_append] at this
+  exact nodup_reverse this
+
+/-- P2 (b): whenever an importer `a` is emitted, each of its dependencies `b` has been emitted, earlier
+    (no hypothesis needed) -/
+theorem topo_order (g : Graph) (mods : List Nat) {a b : Nat} (e : Edge g a b) (ha : a ∈ topo g mods) :
+    ∃ l1 l2 l3, topo g mods = l1 ++ b :: l2 ++ a :: l3 := by
+  obtain ⟨final, h1, h2⟩ := topo_spec g mods
+  rw [h1] at ha ⊢
+  rw [List.mem_reverse] at ha
+  obtain ⟨l, rest, hl, hr⟩ := good_split h2.good ha
+  obtain ⟨r1, r2, hr2⟩ := List.append_of_mem (hr b e)
+  refine ⟨r2.reverse, r1.reverse, l.reverse, ?_⟩
+  rw [hl, hr2]
+  simp
+
+theorem topo_dep_mem (g : Graph) (mods : List Nat) {a b : Nat} (e : Edge g a b) (ha : a ∈ topo g mods) :
+    b ∈ topo g mods := by
+  obtain ⟨l1, l2, l3, h⟩ := topo_order g mods e ha
+  rw [h]; simp
+
+/-- P2 (b), index form -/
+theorem topo_order_idx (g : Graph) (mods : List Nat) {a b : Nat} (e : Edge g a b) (ha : a ∈ topo g mods) :
+    (topo g mods).idxOf b < (topo g mods).idxOf a := by
+  obtain ⟨l1, l2, l3, h⟩ := topo_order g mods e ha
+  have hnd := topo_nodup g mods
+  rw [h] at hnd ⊢
+  have hsplit : l1 ++ b :: l2 ++ a :: l3 = l1 ++ (b :: (l2 ++ a :: l3)) := by simp
+  rw [hsplit] at hnd ⊢
+  rw [List.nodup_append] at hnd
+  obtain ⟨_, h2, h3⟩ := hnd
+  rw [List.nodup_cons] at h2
+  have hb1 : b ∉ l1 := fun hb => h3 b hb b List.mem_cons_self rfl
+  have ha1 : a ∉ l1 := fun ha' => h3 a ha' a (by simp) rfl
+  have hab : a ≠ b := by
+    intro hab; subst hab
+    exact h2.1 (by simp)
+  have hab' : (b == a) = false := by simpa using (fun h => hab h.symm)
+  rw [List.idxOf_append, List.idxOf_append]
+  simp only [hb1, ha1, if_false, List.idxOf_cons, BEq.rfl, cond_true, hab', cond_false]
+  omega
+
+/-- P2 (c): on an acyclic graph whose nodes are all in `mods`, every module is emitted -/
+theorem topo_complete (g : Graph) (mods : List Nat) (hac : Acyclic g) (hmods : mods.Nodup)
+    (hnodes : ∀ x, x ∈ nodes g → x ∈ mods) : (topo g mods).Perm mods := by
+  obtain ⟨final, h1, h2⟩ := topo_spec g mods
+  have hR : ∀ x ds, (x, ds) ∈ g → x ∈ mods :=
+    fun x ds h => hnodes x (mem_nodes.2 (Or.inl ⟨ds, h⟩))
+  have hallmods : ∀ x, x ∈ topoAll g mods ↔ x ∈ mods := by
+    intro x
+    rw [mem_topoAll]
+    constructor
+    · rintro (h | ⟨ds, h⟩)
+      · exact h
+      · exact hR x ds h
+    · exact Or.inl
+  have hall : ∀ x, x ∈ topoAll g mods → x ∈ final := by
+    apply acyclic_induction hac (fun x => x ∈ topoAll g mods → x ∈ final)
+    intro x ih hx
+    have hu : unem g final x = 0 := by
+      rw [unem_eq_zero]
+      intro y hy
+      exact ih y hy ((hallmods y).2 (hnodes y (edge_mem_nodes hy).2))
+    rcases h2.ready hR x hx hu with h | h
+    · simp at h
+    · exact h
+  rw [h1]
+  have hnd := h2.nodup
+  rw [List.nil_append] at hnd
+  rw [List.perm_ext_iff_of_nodup (nodup_reverse hnd) hmods]
+  intro x
+  rw [List.mem_reverse, ← hallmods]
+  exact ⟨h2.sorted_sub x, hall x⟩
+
+/-- P2: `topo_sound` — on an acyclic graph, with `mods` duplicate-free and containing every node:
+    the result is duplicate-free, a permutation of `mods`, and every dependency precedes its importer -/
+theorem topo_sound (g : Graph) (mods : List Nat) (hac : Acyclic g) (hmods : mods.Nodup)
+    (hnodes : ∀ x, x ∈ nodes g → x ∈ mods) :
+    (topo g mods).Nodup ∧ (topo g mods).Perm mods ∧
+      ∀ a b, Edge g a b → (topo g mods).idxOf b < (topo g mods).idxOf a ∧
+        ∃ l1 l2 l3, topo g mods = l1 ++ b :: l2 ++ a :: l3 := by
+  have hperm := topo_complete g mods hac hmods hnodes
+  refine ⟨topo_nodup g mods, hperm, fun a b e => ?_⟩
+  have ha : a ∈ topo g mods := hperm.mem_iff.2 (hnodes a (edge_mem_nodes e).1)
+  exact ⟨topo_order_idx g mods e ha, topo_order g mods e ha⟩
+
+/-! ### independence of the map iteration order -/
+
+/-- lookup by key in an association list with distinct keys does not depend on the order -/
+theorem find_key_perm {β : Type} {l l' : List (Nat × β)} (h : l.Perm l') (hnd : (l.map (·.1)).Nodup)
+    (a : Nat) : l.find? (·.1 == a) = l'.find? (·.1 == a) := by
+  induction h with
+  | nil => rfl
+  | cons x _ ih =>
+    rw [List.map_cons, List.nodup_cons] at hnd
+    simp only [List.find?_cons]
+    rw [ih hnd.2]
+  | swap x y l =>
+    simp only [List.map_cons, List.nodup_cons, List.mem_cons] at hnd
+    simp only [List.find?_cons]
+    cases hx : (x.1 == a) <;> cases hy : (y.1 == a) <;> simp
+    simp at hx hy
+    exact (hnd.1 (Or.inl (hy.trans hx.symm))).elim
+  | trans h1 _ ih1 ih2 =>
+    rw [ih1 hnd]
+    exact ih2 ((h1.map (·.1)).nodup_iff.1 hnd)
+
+/-- P2: `succs` is invariant under permutation of a `NoDupKeys` graph -/
+theorem succs_perm {g g' : Graph} (h : g.Perm g') (hnd : NoDupKeys g) (a : Nat) :
+    succs g a = succs g' a := by
+  unfold succs
+  rw [find_key_perm h hnd a]
+
+theorem getDeg_perm {d d' : List (Nat × Nat)} (h : d.Perm d') (hnd : (d.map (·.1)).Nodup) (m : Nat) :
+    getDeg d m = getDeg d' m := by
+  unfold getDeg
+  rw [find_key_perm h hnd m]
+
+theorem kahnStep_congr {g g' : Graph} (hs : ∀ a, succs g a = succs g' a) (deg : List (Nat × Nat)) (c : Nat) :
+    kahnStep g deg c = kahnStep g' deg c := by
+  have : succs g = succs g' := funext hs
+  unfold kahnStep
+  rw [this]
+
+theorem kahnLoop_congr {g g' : Graph} (hs : ∀ a, succs g a = succs g' a) :
+    ∀ (fuel : Nat) (queue : List Nat) (deg : List (Nat × Nat)) (sorted : List Nat),
+      kahnLoop g fuel queue deg sorted = kahnLoop g' fuel queue deg sorted := by
+  intro fuel
+  induction fuel with
+  | zero => intro queue deg sorted; rw [kahnLoop.eq_1, kahnLoop.eq_1]
+  | succ fuel ih =>
+    intro queue deg sorted
+    cases queue with
+    | nil => rw [kahnLoop.eq_2 _ _ _ _ (by omega), kahnLoop.eq_2 _ _ _ _ (by omega)]
+    | cons c queue =>
+      rw [kahnLoop.eq_3, kahnLoop.eq_3, kahnStep_congr hs]
+      exact ih _ _ _
+
+theorem kahnStep_perm (g : Graph) {d d' : List (Nat × Nat)} (h : d.Perm d') (hnd : (d.map (·.1)).Nodup)
+    (c : Nat) :
+    (kahnStep g d c).1.Perm (kahnStep g d' c).1 ∧ (kahnStep g d c).2 = (kahnStep g d' c).2 ∧
+      ((kahnStep g d c).1.map (·.1)) = d.map (·.1) := by
+  unfold kahnStep
+  simp only []
+  refine ⟨h.map _, ?_, ?_⟩
+  · apply sortNat_perm
+    apply List.Perm.map
+    have hp : ∀ (p : Nat × Nat), (p.2 == 0 && getDeg d p.1 != 0) = (p.2 == 0 && getDeg d' p.1 != 0) := by
+      intro p; rw [getDeg_perm h hnd]
+    have hfun : (fun (x : Nat × Nat) => match x with | (m, d_1) => d_1 == 0 && getDeg d m != 0)
+        = (fun (x : Nat × Nat) => match x with | (m, d_1) => d_1 == 0 && getDeg d' m != 0) := by
+      funext x
+      exact hp x
+    rw [hfun]
+    exact (h.map _).filter _
+  · rw [List.map_map]
+    apply List.map_congr_left
+    intro p _
+    rfl
+
+theorem kahnLoop_perm (g : Graph) :
+    ∀ (fuel : Nat) (queue : List Nat) (d d' : List (Nat × Nat)) (sorted : List Nat),
+      d.Perm d' → (d.map (·.1)).Nodup →
+      kahnLoop g fuel queue d sorted = kahnLoop g fuel queue d' sorted := by
+  intro fuel
+  induction fuel with
+  | zero => intro queue d d' sorted _ _; rw [kahnLoop.eq_1, kahnLoop.eq_1]
+  | succ fuel ih =>
+    intro queue d d' sorted h hnd
+    cases queue with
+    | nil => rw [kahnLoop.eq_2 _ _ _ _ (by omega), kahnLoop.eq_2 _ _ _ _ (by omega)]
+    | cons c queue =>
+      rw [kahnLoop.eq_3, kahnLoop.eq_3]
+      obtain ⟨h1, h2, h3⟩ := kahnStep_perm g h hnd c
+      generalize kahnStep g d c = r1 at h1 h2 h3
+      generalize kahnStep g d' c = r2 at h1 h2
+      obtain ⟨d1, n1⟩ := r1
+      obtain ⟨d2, n2⟩ := r2
+      simp only at h1 h2 h3 ⊢
+      subst h2
+      exact ih _ _ _ _ h1 (h3 ▸ hnd)
+
+theorem perm_of_nodup_mem {l l' : List Nat} (h1 : l.Nodup) (h2 : l'.Nodup) (h : ∀ x, x ∈ l ↔ x ∈ l') :
+    l.Perm l' := (List.perm_ext_iff_of_nodup h1 h2).2 h
+
+/-- P2: the topological order does not depend on the iteration order of the Go maps: neither on the order
+    of the association list `g` nor on the order of `mods` -/
+theorem topo_perm_invariant {g g' : Graph} {mods mods' : List Nat} (hg : g.Perm g') (hnd : NoDupKeys g)
+    (hm : mods.Perm mods') : topo g' mods' = topo g mods := by
+  have hs : ∀ a, succs g a = succs g' a := succs_perm hg hnd
+  have hsf : succs g' = succs g := funext fun a => (hs a).symm
+  have hall : (topoAll g' mods').Perm (topoAll g mods) := by
+    refine perm_of_nodup_mem (nodup_eraseDups _) (nodup_eraseDups _) (fun x => ?_)
+    show x ∈ topoAll g' mods' ↔ x ∈ topoAll g mods
+    rw [mem_topoAll, mem_topoAll, hm.mem_iff]
+    constructor
+    · rintro (h | ⟨ds, h⟩)
+      · exact Or.inl h
+      · exact Or.inr ⟨ds, hg.mem_iff.2 h⟩
+    · rintro (h | ⟨ds, h⟩)
+      · exact Or.inl h
+      · exact Or.inr ⟨ds, hg.mem_iff.1 h⟩
+  have hq : topoQueue g' mods' = topoQueue g mods := by
+    unfold topoQueue
+    rw [hsf]
+    apply sortNat_perm
+    apply List.Perm.filter
+    apply perm_of_nodup_mem (nodup_eraseDups _) (nodup_eraseDups _)
+    intro x
+    rw [List.mem_eraseDups, List.mem_eraseDups, hm.mem_iff]
+  rw [topo_eq, topo_eq, hq, hall.length_eq, ← kahnLoop_congr hs]
+  apply kahnLoop_perm
+  · unfold degOf unem
+    rw [hsf]
+    exact hall.map _
+  · unfold degOf
+    rw [List.map_map]
+    have : ((fun (x : Nat × Nat) => x.1) ∘ fun m => (m, unem g' [] m)) = id := rfl
+    rw [this, List.map_id]
+    exact nodup_eraseDups _
+
+/-! ### concrete instances -/
+
+/-- diamond 1 → {2,3} → 4: dependencies first, ties by module number -/
+example : topo [(1, [2, 3]), (2, [4]), (3, [4])] [1, 2, 3, 4] = [4, 2, 3, 1] := by
+  simp [topo, kahnLoop, kahnStep, getDeg, succs, sortNat, insertSorted, List.eraseDups_cons]
+
+/-- same graph and modules presented in another (map) order -/
+example : topo [(3, [4]), (1, [2, 3]), (2, [4])] [4, 3, 2, 1] = [4, 2, 3, 1] := by
+  simp [topo, kahnLoop, kahnStep, getDeg, succs, sortNat, insertSorted, List.eraseDups_cons]
+
+/-- on a 3-cycle nothing is ever ready: the order is empty (modules are silently dropped, which is why
+    `topo_complete` needs `Acyclic`) -/
+example : topo [(1, [2]), (2, [3]), (3, [1])] [1, 2, 3] = [] := by
+  simp [topo, kahnLoop, succs, sortNat, List.eraseDups_cons]
+
+/-- a cycle below an acyclic part: only the acyclic part is emitted -/
+example : topo [(1, [2]), (2, [1]), (3, [4])] [1, 2, 3, 4] = [4, 3] := by
+  simp [topo, kahnLoop, kahnStep, getDeg, succs, sortNat, insertSorted, List.eraseDups_cons]
+
 end FerretVerif.DepGraph
